@@ -2,7 +2,7 @@
    relies on) on the same inputs as the implementation and compare bit for bit.
    Modes are signed (Z) as in Python; tensors of the generated cases carry the labels 0..n-1. *)
 From Coq Require Import List Arith ZArith Bool Uint63.
-From TLV Require Import Base.Shape Base.PyList Base.Tensor Model.Base Model.BaseExt Corr.Common.
+From TLV Require Import Base.Shape Base.PyList Base.Tensor Model.Base Model.BaseExt Model.BasePy Corr.Common.
 Import ListNotations.
 
 (* Case literals: tensor data are packed, w bits per entry and 60/w entries per primitive 63-bit
@@ -54,13 +54,42 @@ Definition run (o : op) (t : tensor Z) : res (tensor Z) :=
   | OReshape spec => reshape_spec spec t
   end.
 
-Definition case := (int * op * lit * res lit)%type.
+(* The same request on the statement-by-statement model of Model/BasePy.v (what the ast translator regenerates from the
+   source), on the TYPED NumPy backend: arrays carry a dtype tag (an integer code chosen by the harness).  The generic
+   Backend.moveaxis is not a function of base.py and has no g_ counterpart. *)
+Definition zspec (spec : list (option nat)) : list Z := map (fun o => match o with Some n => Z.of_nat n | None => (-1)%Z end) spec.
+Definition TB := typed 0%Z Z.
+Definition run_g (o : op) (a : ndarray Z Z) : option (res (ndarray Z Z)) :=
+  match o with
+  | OVec => Some (g_tensor_to_vec TB a)
+  | OUnvec s => Some (g_vec_to_tensor TB a (map Z.of_nat s))
+  | OUnfold m => Some (g_unfold TB a m)
+  | OFold m s => Some (g_fold TB a m (map Z.of_nat s))
+  | OPUnfold m sb se rav => Some (g_partial_unfold TB a m (Z.of_nat sb) (Z.of_nat se) rav)
+  | OPFold m s sb se => Some (g_partial_fold TB a m (map Z.of_nat s) (Z.of_nat sb) (Z.of_nat se))
+  | OPVec sb se => Some (g_partial_tensor_to_vec TB a (Z.of_nat sb) (Z.of_nat se))
+  | OPUnvec s sb se => Some (g_partial_vec_to_tensor TB a (map Z.of_nat s) (Z.of_nat sb) (Z.of_nat se))
+  | OMat rows cols => Some (g_matricize TB a rows cols)
+  | OMove x y => Some (b_moveaxis TB a x y)
+  | OMoveG _ _ => None
+  | OTrans p => Some (b_transpose TB a (map Z.of_nat p))
+  | OReshape spec => Some (b_reshape TB a (zspec spec))
+  end.
+Definition arr_eqb (a b : ndarray Z Z) : bool := Z.eqb (dt a) (dt b) && zt_eqb (arr a) (arr b).
+
+(* a case: id, request, input, the implementation's outcome, and the dtype codes of the input and of the result
+   (taken from the run of the same request on another dtype; equal codes when the request is rejected) *)
+Definition case := (int * op * lit * res lit * (Z * Z))%type.
 Definition agree (c : case) : bool :=
-  let '(_, o, t, expected) := c in
-  res_eqb zt_eqb (run o (dec t)) (match expected with Ok e => Ok (dec e) | Err => Err end).
+  let '(_, o, t, expected, (tin, tout)) := c in
+  res_eqb zt_eqb (run o (dec t)) (match expected with Ok e => Ok (dec e) | Err => Err end) &&
+  match run_g o (mkarr tin (dec t)) with
+  | Some r => res_eqb arr_eqb r (match expected with Ok e => Ok (mkarr tout (dec e)) | Err => Err end)
+  | None => true
+  end.
 (* The ids of the failing cases are returned as Z (binary), not nat: reading a unary nat of depth ~50000 back from the
    VM overflows the stack, which would turn a run WITH disagreements into "shard not evaluated". *)
-Definition ident (c : case) : Z := let '(i, _, _, _) := c in Uint63.to_Z i.
+Definition ident (c : case) : Z := let '(i, _, _, _, _) := c in Uint63.to_Z i.
 Definition failing (cs : list case) : list Z := map ident (filter (fun c => negb (agree c)) cs).
 
 (* the decoder on a hand-made literal: 7 entries, 10 bits each, 6 per integer *)
@@ -68,3 +97,20 @@ Example unpack_example :
   unpack 10 7 [(5 + 1024 * (1023 + 1024 * (0 + 1024 * (7 + 1024 * (8 + 1024 * 9)))))%uint63; 3%uint63]
   = [5; 1023; 0; 7; 8; 9; 3]%Z.
 Proof. vm_compute. reflexivity. Qed.
+
+(* ---------- a finite box of requests, used by the harness only when the universal proof  ast_f = g_f  of a function
+   regenerated from the Python source does not go through: the two are then compared on every request of the box ---------- *)
+Fixpoint lists_over {X} (vals : list X) (n : nat) : list (list X) :=
+  match n with O => [[]] | S k => flat_map (fun x => map (cons x) (lists_over vals k)) vals end.
+Definition box_shapes : list (list nat) :=
+  flat_map (lists_over [0; 1; 2; 3]) [0; 1; 2; 3] ++ lists_over [1; 2] 4.
+Definition zrange (a : Z) (n : nat) : list Z := map (fun k => (a + Z.of_nat k)%Z) (seq 0 n).
+Definition box_modes (s : list nat) : list Z := zrange (- Z.of_nat (length s) - 1) (2 * length s + 3).
+Definition box_skips (s : list nat) : list Z := zrange 0 (length s + 2).
+Definition box_targets (s : list nat) : list (list Z) :=
+  let z := map Z.of_nat s in [z; rev z; (1 :: z)%Z; tl z].
+Definition box_mode_lists (s : list nat) : list (list Z) :=
+  flat_map (lists_over (zrange (-1) (length s + 2))) (seq 0 (Nat.min (length s + 1) 4)).
+Definition P0 := @plain Z 0%Z.
+Definition differ (x y : res (tensor Z)) : bool := negb (res_eqb zt_eqb x y).
+Definition arange (s : list nat) : tensor Z := dec (IAr s).
